@@ -6,7 +6,8 @@
      ClockInverseAll    (C13)  time -> step inverts step -> time, both directions    -- MC_Clock!InverseLaw
      FamilyOrder2All    (C01)  every member of the two-stage family has order 2      -- MC_Tableau!FamilyOrder2
      ColdRecordsInWindow(C07)  every record step of a cold run lies in [0, nsteps)   -- MC_OutFile!ColdWindow
-     LerpEndpointsAll   (C03)  TimeToStepFloorAll (C13)  WarmRecordsInWindow (C08)                                  *)
+     LerpEndpointsAll   (C03)  TimeToStepFloorAll (C13)  WarmRecordsInWindow (C08)
+     LookupIdentityAll  (C12)  SubgridSlicesInBounds (C17, C20)                                                      *)
 EXTENDS Integers, TLAPS
 
 \* ---- copied verbatim from Tracker.tla / Clock.tla / Tableau.tla / OutFile.tla (checked textually by run.py setup)
@@ -56,5 +57,22 @@ OBVIOUS
 \* C08: every record step of a warm-started run lies in [1, nsteps]           -- MC_OutFile (warm schedule)
 THEOREM WarmRecordsInWindow ==
    \A nsteps, ops, k \in Int : (nsteps >= 0 /\ ops >= 1 /\ k >= 1 /\ k <= nsteps \div ops) => (k * ops >= 1 /\ k * ops <= nsteps)
+OBVIOUS
+
+\* C12 / C02: the level lookup's weight is in [0, 1] and reproduces the depth        -- MC_Vertical!LookupLaw (inside the level range)
+\* (an, ad as Vertical!Z2S computes them for zr[K-1] = z0 < z1 = zr[K] and z0 <= zneg <= z1)
+THEOREM LookupIdentityAll ==
+   \A z0, z1, zneg \in Int : (z0 < z1 /\ z0 <= zneg /\ zneg <= z1) =>
+       LET an == z1 - zneg   ad == z1 - z0
+       IN an >= 0 /\ an <= ad /\ ad > 0 /\ an * z0 + (ad - an) * z1 = ad * zneg
+OBVIOUS
+
+\* C17 / C20: a legal sub-rectangle keeps every slice of the rho, u and v arrays inside the file's arrays   -- Startup!SubgridLegal, MC_Interp!InBounds
+\* (rho: [i0, i1) of imax, u: [i0 - 1, i1) of imax - 1, v: [j0 - 1, j1) of jmax - 1)
+THEOREM SubgridSlicesInBounds ==
+   \A i0, i1, j0, j1, imax, jmax \in Int :
+      (1 <= i0 /\ i0 < i1 /\ i1 <= imax - 1 /\ 1 <= j0 /\ j0 < j1 /\ j1 <= jmax - 1) =>
+         /\ 0 <= i0 /\ i1 <= imax /\ 0 <= i0 - 1 /\ i1 <= imax - 1 /\ i1 - (i0 - 1) = (i1 - i0) + 1
+         /\ 0 <= j0 /\ j1 <= jmax /\ 0 <= j0 - 1 /\ j1 <= jmax - 1 /\ j1 - (j0 - 1) = (j1 - j0) + 1
 OBVIOUS
 =============================================================================
